@@ -1020,6 +1020,19 @@ class VN:
         raise Unrecognised("value numbering: unsupported statement %s" % type(s).__name__, s)
 
 
+def iter_once_loop(vn, s, st):
+    """loop hook: execute the body of a `for` loop once with the loop variable bound to a fresh symbol (one symbolic
+    iteration): the post-state expresses the effect of a generic iteration on the pre-state"""
+    if not isinstance(s, ast.For):
+        return None
+    vn._iter_count = getattr(vn, "_iter_count", 0) + 1
+    sym = T.sym("ITER%d" % vn._iter_count)
+    it = vn.ev(s.iter, st)
+    st.events.append(("loop", vn._as_term(it), s))
+    vn.assign(s.target, T.app("elem", vn._as_term(it), sym) if not isinstance(s.target, ast.Name) else T.app("elem", vn._as_term(it), sym), st, s)
+    return vn.block(list(s.body), [st])
+
+
 def unroll_loop(vn, s, st):
     """loop hook: unroll `for` loops whose iterable evaluates to a python tuple of statically known
     length (symbolic elements); other loops are not handled here (returns None)"""
